@@ -173,12 +173,24 @@ def _chain(w, hash_name, root, sd, rkid, l0):
 class DC:
     """conforming domain controller: GetKey(sd, rkid, l0, l1, l2) -> envelope of MS-GKDI 2.2.4 for that position (or for 'now' when -1,-1,-1)"""
 
-    def __init__(self, c, w, hash_name, root, now):
+    def __init__(self, c, w, hash_name, root, now, public_for_protect=False):
         self.c, self.w, self.hash_name, self.root, self.now = c, w, hash_name, root, now
+        self.public_for_protect = public_for_protect
         self.calls = []
 
     def get_key(self, server, target_sd, root_key_id=None, l0=-1, l1=-1, l2=-1, **kw):
         self.calls.append((target_sd, l0, l1, l2))
+        if l0 == -1 and self.public_for_protect:
+            # the caller may encrypt for the SID but is not a member: the DC hands out the group *public* key only
+            l0, l1, l2 = self.now
+            rkid = root_key_id or e2e.RK
+            chain_l1, l2key = _chain(self.w, self.hash_name, self.root, target_sd, rkid, l0)
+            xb = self.w.kdf(HASHES[self.hash_name](), l2key(l1, l2), "KDS service\0".encode("utf-16-le"), "ECDH_P256\0".encode("utf-16-le"), 32)
+            x = V.int_from_bytes(xb, "big") if self.c.symbolic else int.from_bytes(xb, "big")
+            self.c.assume(all_of([x > 0, x < self.w.algebra.CURVE_ORDER["secp256r1"]]))
+            el = self.w.algebra._ec_element("secp256r1", ("G", "G"), [x])
+            pub = refs.ref_ecdh_key("P256", 32, el["x"], el["y"])
+            return _gkdi.GroupKeyEnvelope(1, 3, l0, l1, l2, rkid, "SP800_108_CTR_HMAC", _gkdi.KDFParameters(self.hash_name).pack(), "ECDH_P256", b"", 256, 256, "d.test", "f.test", b"", pub)
         if l0 == -1:
             l0, l1, l2 = self.now
         rkid = root_key_id or e2e.RK
@@ -208,12 +220,16 @@ HISTORIES = [
     ("root key first: never an RPC", [("load",), ("unprotect", 0), ("unprotect", 1), ("protect",)], [0, 0, 0, 0]),
     ("other L0 and other SID are separate triples", [("unprotect", 0), ("unprotect", 3), ("unprotect", 4), ("unprotect", 1)], [1, 1, 1, 0]),
     ("protect via the DC then unprotect its own blob", [("protect",), ("unprotect", -1)], [1, 0]),
+    ("root key, protect now, then a blob from an earlier L1 interval of the same L0", [("load",), ("protect",), ("unprotect", 1), ("unprotect", 0)], [0, 0, 0, 0]),
+    ("a public-key reply to protect is not seed material: the later unprotect still asks the DC and succeeds", [("protect_pub",), ("unprotect", 1), ("unprotect", 0)], [1, 1, 1]),
+    ("seed keys cached by unprotect survive a later public-key protect", [("unprotect", 0), ("protect_pub",), ("unprotect", 1)], [1, 1, 0]),
 ]
 BLOBS = [(361, 9, 4, 0), (361, 3, 7, 0), (361, 9, 5, 0), (362, 1, 1, 0), (361, 9, 4, 1)]  # (l0, l1, l2, sid index)
 
 
-@harness(P, per_job=True, params=lambda tier: [dict(h=i, flavour=f) for i in range(len(HISTORIES)) for f in (("sync",) if tier == "quick" else ("sync", "async"))], max_steps=4000000,
-         bounds="6 listed operation histories (up to 4 calls) over {load root key, unprotect blobs at 5 listed positions on 2 L0s / 2 SIDs, protect now} through the public API against "
+@harness(P, per_job=True, params=lambda tier: [dict(h=i, flavour=f) for i in range(len(HISTORIES)) for f in (("sync",) if tier == "quick" and i < 7 else ("sync", "async"))],
+         max_steps=4000000, raises=(e2e.ScalarOutOfRange,),
+         bounds="9 listed operation histories (up to 4 calls) over {load root key, unprotect blobs at 5 listed positions on 2 L0s / 2 SIDs, protect now with a seed-key or a public-key reply} through the public API against "
          "a conforming-DC stub that counts GetKey calls; plaintexts symbolic", outside="other histories (the inductive steps above cover histories of any length at cache level)",
          must_reach=("same plaintext as with a fresh cache", "domain controller contacted exactly when no covering material was cached"))
 def histories(c, h, flavour):
@@ -240,13 +256,22 @@ def histories(c, h, flavour):
         before = len(dc.calls)
         if op == "load":
             c.call(cache.load_key, root, e2e.RK, kdf_parameters=_gkdi.KDFParameters(hash_name).pack())
-        elif op == "protect":
-            if flavour == "sync":
+        elif op in ("protect", "protect_pub"):
+            dc.public_for_protect = op == "protect_pub"
+            if op == "protect_pub":
+                if flavour == "sync":
+                    out_pub = c.call(dpapi_ng.ncrypt_protect_secret, ppt, e2e.SIDS[0], root_key_identifier=e2e.RK, server="dc", cache=cache)
+                else:
+                    out_pub = c.call_async(dpapi_ng.async_ncrypt_protect_secret, ppt, e2e.SIDS[0], root_key_identifier=e2e.RK, server="dc", cache=cache)
+                yk = c.call(_blob.DPAPINGBlob.unpack, out_pub).key_identifier
+                c.check(all_of([yk.is_public_key, yk.l0 == 361, yk.l1 == 9, yk.l2 == 6]), "public-key protect names the current interval")
+            elif flavour == "sync":
                 last_protected = c.call(dpapi_ng.ncrypt_protect_secret, ppt, e2e.SIDS[0], root_key_identifier=e2e.RK, server="dc", cache=cache)
             else:
                 last_protected = c.call_async(dpapi_ng.async_ncrypt_protect_secret, ppt, e2e.SIDS[0], root_key_identifier=e2e.RK, server="dc", cache=cache)
-            y = c.call(_blob.DPAPINGBlob.unpack, last_protected)
-            c.check(all_of([y.key_identifier.l0 == 361, y.key_identifier.l1 == 9, y.key_identifier.l2 == 6]), "protect names the current interval")
+            if op == "protect":
+                y = c.call(_blob.DPAPINGBlob.unpack, last_protected)
+                c.check(all_of([y.key_identifier.l0 == 361, y.key_identifier.l1 == 9, y.key_identifier.l2 == 6]), "protect names the current interval")
         else:
             i = arg[0]
             blob, pt = (last_protected, ppt) if i == -1 else (blobs[i], pts[i])
@@ -257,3 +282,34 @@ def histories(c, h, flavour):
             c.check(seq_eq(out, pt), "same plaintext as with a fresh cache")
         c.check(len(dc.calls) - before == rpc, "domain controller contacted exactly when no covering material was cached")
     return len(dc.calls)
+
+
+@harness(P, params=lambda tier: [dict(hash_name="SHA512", flavour=f) for f in (("sync",) if tier == "quick" else ("sync", "async"))], max_steps=400000,
+         bounds="step 'protect served from the cache' (the glue of ncrypt_protect_secret: _get_protection_gke_from_cache, then _store_key of what it returned) from an arbitrary valid "
+         "pre-state, clock symbolic over three adjacent L2 intervals of L0=361 around an L1 boundary: afterwards the stored envelope for the triple still has the chain keys of its own "
+         "position (invariant I) and still covers every position it covered before", outside="other clock windows (each L2 interval is one derivation path)",
+         must_reach=("protect step: invariant preserved", "protect step: coverage not reduced"))
+def protect_step(c, hash_name, flavour):
+    import time
+
+    from dpapi_ng import _client as cl
+
+    lo, hi = e2e.window(361, 10, 0, e2e.B + 3, e2e.B + 3)
+    t = c.int("time_ns", lo, hi)
+    log = []
+    c.stubs([(_crypto.kdf, make_kdf(c, RKID.bytes_le, L0, SD, hash_name, log)), (time.time_ns, lambda: t)])
+    cache, has_root, st, other = _pre_state(c, hash_name)
+    rk = c.call(cl._get_protection_gke_from_cache, RKID, SD, cache)
+    if rk is not None and not truth(rk.is_public_key):
+        c.call(cache._store_key, SD, rk)
+    now = _stored(cache)
+    if rk is None:
+        c.check(not has_root and (st is None or not truth(covers(st.l1, st.l2, 31, 31)) or True), "protect step: cache miss only without usable material")
+    c.check(now is None or truth(chain_correct(c, now)), "protect step: invariant preserved")
+    if st is not None:
+        c.check(now is not None and truth(covers(now.l1, now.l2, st.l1, st.l2)), "protect step: coverage not reduced")
+    elif has_root:
+        c.check(now is not None and truth(all_of([now.l1 == 31, now.l2 == 31])), "protect step: coverage not reduced")
+    else:
+        c.check(True, "protect step: coverage not reduced")
+    return rk is None
